@@ -231,6 +231,9 @@ def part_seeds(only=None):
         if not os.path.exists(os.path.join(sd, 'meta.json')) or (only and s not in only):
             continue
         meta = json.load(open(os.path.join(sd, 'meta.json')))
+        if meta.get('superseded'):
+            print(f"SKIP seed {s}: {meta['superseded'][:110]}...")
+            continue
         d = tempfile.mkdtemp(prefix='stseed', dir='/tmp')
         try:
             subprocess.run(['git', '-C', lib.REPO, 'worktree', 'add', '--detach', os.path.join(d, 'wt'), 'HEAD'], capture_output=True)
